@@ -290,6 +290,12 @@ m("C19-r3g", "C19", "libwallet/src/api_impl/owner.rs", "\t\t\t.find(|t| t.id == 
 m("C03-r3rx", "C03", "libwallet/src/api_impl/foreign.rs", "\t\tif t.tx_type == TxLogEntryType::TxReceivedCancelled {\n\t\t\treturn Err(Error::TransactionWasCancelled(ret_slate.id.to_string()));\n\t\t}\n", "", "C03.R3")
 m("C18-r9", "C18", "libwallet/src/api_impl/owner.rs", "\tupdate_outputs(wallet_inst.clone(), keychain_mask, true)?;\n\tlet tip = {", "\tupdate_outputs(wallet_inst.clone(), keychain_mask, start_height.map_or(true, |h| h <= 1))?;\n\tlet tip = {", "C18.R9")
 
+m("C03-r3rev", "C03", "libwallet/src/api_impl/foreign.rs", "\t\tif t.tx_type == TxLogEntryType::TxReceived || t.tx_type == TxLogEntryType::TxReverted {", "\t\tif t.tx_type == TxLogEntryType::TxReceived {", "C03.R3")
+m("C03-r3inv", "C03", "libwallet/src/api_impl/owner.rs", "\t// Don't do this multiple times, from whichever account\n\tlet tx = updater::retrieve_txs(&mut *w, None, Some(ret_slate.id), None, None, use_test_rng)?;", "\t// Don't do this multiple times\n\tlet tx = updater::retrieve_txs(\n\t\t&mut *w,\n\t\tNone,\n\t\tSome(ret_slate.id),\n\t\tNone,\n\t\tSome(&parent_key_id),\n\t\tuse_test_rng,\n\t)?;", "C03.R3")
+m("C14-r9", "C14", "libwallet/src/api_impl/owner_updater.rs", "\t\tself.is_running.store(false, Ordering::Relaxed);\n\t\tres\n", "\t\tres\n", "C14.R9")
+m("C03-r3ctx", "C03", "libwallet/src/api_impl/owner.rs", "\t// Don't do this multiple times\n\tlet tx = updater::retrieve_txs(\n\t\t&mut *w,\n\t\tNone,\n\t\tSome(slate.id),\n\t\tNone,\n\t\tSome(&context.parent_key_id),", "\t// Don't do this multiple times\n\tlet active_account = w.parent_key_id();\n\tlet tx = updater::retrieve_txs(\n\t\t&mut *w,\n\t\tNone,\n\t\tSome(slate.id),\n\t\tNone,\n\t\tSome(&active_account),", "C03.R3")
+m("C06-r8mu", "C06", "libwallet/src/internal/scan.rs", "\tfor mut o in released {\n\t\to.status = OutputStatus::Unspent;", "\tfor mut o in released {\n\t\to.mark_unspent();", "C06.R8")
+
 
 def for_property(prop):
     return [x for x in M if x["property"] == prop]
